@@ -97,3 +97,16 @@ chk("C23", "proof",
     "Theorems (Coq, closed): the semi-naive loop with the extra exit `|R| >= n` (evaluated on the main relation before the round's merge, as the emitted RAM does -- accepted and fed to loop_run by the proved validator) yields a subset of the least fixpoint, equals it when the fixpoint holds fewer than n tuples of R, and otherwise holds at least n. Tied per program: generated recursive programs with .limitsize on each recursive relation for limits around its unlimited size, judged against the proved reference.",
     "Trusted: Coq kernel; generator and oracle glue; programs restricted to positive recursion (limits interact non-monotonically with negation).",
     "Coq theorems on the limited loop + per-program check of the three clauses against the proved reference", "DESIGN.md §6 C23")
+
+chk("C14", "exploration",
+    "Fuzzing, stated as such (no theorem: a Gallina model is total by construction, so crash freedom of the C++ front end is not expressible in an executable model). Token-level and byte-level mutants of 13 feature-rich valid programs; souffle must end with status 0 or 1 within 20 s; anything else is minimised by token-level delta debugging and reported with the input.",
+    "Exploration only. Crashes found so far were repaired (limitsize without n).",
+    "mutation fuzzing of program text (exploration; not a proof)", "DESIGN.md §6 C14")
+chk("C15", "proof",
+    "Theorems (Coq, closed): for EVERY byte string the printed form of a string constant is a single STRING token of the scanner that lexes back to the same string, and printing is injective; the printer before the repair is proved not to round-trip. The rest of the printer/parser pair is tied by correspondence: for generated programs (functors, records, ADTs, aggregates, qualifiers, tricky string constants) the printed program must parse, printing it again must give the same text, and it must produce the outputs of the original (= the proved reference). Three printer defects found this way were repaired.",
+    "Trusted: Coq kernel; python restatement of the escape table; only the string-constant codec is modelled -- the expression/declaration printers and parser.yy are tied by the three implementation-level predicates only (partial).",
+    "Coq codec round-trip proof (string constants) + print/reparse/fixpoint/equal-output correspondence on generated programs", "DESIGN.md §6 C15")
+chk("C28", "proof",
+    "Theorems (Coq, closed, 20 obligations) over a sequential model with the implementation's shape: after any history of insert / insertAll / extendAndInsert, contains <-> closure of inserted pairs, insert reports new iff unrelated, size = sum of squared class sizes = length of iteration, full / per-element / per-pair iterations and partition ranges list exactly the closure pairs once each, the stale-flag cache is never read outdated, extendAndInsert's two post-states; the sentinel lookup and the (now repaired) unguarded antpostit are proved to misbehave. Tied by running the real EquivalenceRelation and the extracted model on the same histories (all answers incl. exact iteration order compared; the model-independent closure spec compared with the real contains) and by concurrent insert runs judged against the closure at quiescence.",
+    "Trusted: Coq kernel; extraction + driver; cpp/eqrel_harness.cpp; the model is sequential -- concurrent insertion is explored (union-find interleavings are C29's theorem); LambdaBTree map as association list.",
+    "Coq refinement proof of the eqrel structure against the closure specification + differential correspondence", "DESIGN.md §6 C28")
